@@ -166,7 +166,16 @@ def gen():
         return "true" if m.group(1) else "false"
     fact("mecab_len_inclusive", "bool", "true", len_incl)
     fact("mecab_break_cmp", "string", '">"',
-         lambda: '"%s"' % cmp_of(mec(), r"if sublength (>=|>|<=|<|==|!=) llength \{ break; \}", MECAB))
+         lambda: '"%s"' % cmp_of(mec(), r"if sublength (>=|>|<=|<|==|!=) llength(?: \|\| sublength < i as usize)? \{ break; \}", MECAB))
+
+    # since the fix of the clamped-distance loop: leave as soon as char_distance stops growing (i passed the end of the text)
+    def clamp_break():
+        if re.search(r"if sublength (?:>=|>|<=|<|==|!=) llength \|\| sublength < i as usize \{ break; \}", mec()):
+            return "true"
+        if re.search(r"if sublength (?:>=|>|<=|<|==|!=) llength \{ break; \}", mec()):
+            return "false"
+        raise F.FactError("break test of the length loop of provide_oov_gen not recognised")
+    fact("mecab_break_on_clamp", "bool", "true", clamp_break)
 
     def group_dec():
         m = re.search(r"if cinfo\.is_group \{ for oov in oovs \{ nodes\.push\(self\.get_oov_node\(oov, offset, offset \+ char_len\)\); num_created \+= 1; \} llength -= (\d+); \}", mec())
